@@ -268,7 +268,15 @@ def gen_val(f, rng, big=False):
             return rng.choice(K.der_certs()[:6])
         return gen_val(f[2], rng, big)
     if k == 'Rep':
-        return [gen_val(f[1], rng, big) for _ in range(rng.choice([0, 1, 1, 2, 3]))]
+        out = [gen_val(f[1], rng, big) for _ in range(rng.choice([0, 1, 1, 2, 3]))]
+        if f[1][0] == 'Tag' and len(f[1]) > 4:      # extension lists: one extension per type (TLS forbids duplicates)
+            seen, uniq = set(), []
+            for e in out:
+                if e.t not in seen:
+                    seen.add(e.t)
+                    uniq.append(e)
+            out = uniq
+        return out
     if k == 'Opt':
         return None if rng.random() < 0.15 else Some(gen_val(f[1], rng, big))
     if k == 'Tag':
@@ -298,6 +306,8 @@ def overflow_variants(f, v, rng, path=()):
     """values derived from v in which exactly one field does not fit its width"""
     k = f[0]
     if k == 'U':
+        if id(f) in K.BOOL:
+            return       # a Python bool: every value "fits" (coerced by bool())
         yield rng.choice([256 ** f[1], -1, 256 ** f[1] + rng.randrange(1000)]), path + ('U%d' % f[1],)
     elif k == 'Seq':
         for x, p in overflow_variants(f[1], v[0], rng, path):
@@ -426,6 +436,34 @@ def vkey(cls, v):
     return cls.name
 
 
+def failing_ext(cls, v):
+    """the extension inside a message value whose own write() raises, as a site key (or None)"""
+    if cls.ext_ctx is None:
+        return None
+    found = []
+
+    def walk(x):
+        if isinstance(x, Tagged):
+            if isinstance(x.t, int) and x.t < 65536 and not found:
+                for c in (cls.ext_ctx, 'CtxHRR', 'CtxUniversal'):
+                    try:
+                        K.ext_build(c, x).write()
+                        break
+                    except (AssertionError, KeyError, IndexError):
+                        continue          # not an extension value of that context
+                    except Exception:  # noqa
+                        found.append(site_key(cls, (c, x.t), ''))
+                        break
+            walk(x.v)
+        elif isinstance(x, Some):
+            walk(x.v)
+        elif isinstance(x, (tuple, list)):
+            for y in x:
+                walk(y)
+    walk(v)
+    return found[0] if found else None
+
+
 def site_key(cls, site, kind):
     if site is not None:
         ctx, t = site
@@ -467,7 +505,8 @@ class Run(object):
             obj = cls.build(v)
             wb = bytes(obj.write())
         except Exception as e:  # noqa
-            self.viol('write-raises:' + vkey(cls, v), '%s: write() of a value that parse() produces raises %s' % (cls.name, type(e).__name__),
+            self.viol('write-raises:' + (failing_ext(cls, v) or vkey(cls, v)),
+                      '%s: write() of a value that parse() produces raises %s' % (cls.name, type(e).__name__),
                       dict(rep, exc=repr(e)))
             return
         ctx.count('impl-roundtrip', 1, [(cls.name, len(bs) // 64, isinstance(v, Tagged) and v.t)],
